@@ -18,6 +18,14 @@ CHECKS = {
     ),
 }
 
+CHECKS["C05"] = dict(
+    level="exploration",
+    text="Runtime monitoring of the real converter (serialize/deserialize/sort_types) against an independent XSD lexical oracle: every produced string must be a valid lexical form denoting the value and convert back; every generated valid lexical variant must be accepted with the XSD value; candidate lists follow the documented priority. Held on the executions produced.",
+    note="Trusted: vf/lexical.py grammars; CPython float()/Decimal()/int() for the value of a grammar-accepted string; the order list transcribed from docs/models/types.md. Over-acceptance is not judged.",
+    technique="runtime monitoring: reference-model oracle at the converter boundary + contract hooks on ConverterFactory.serialize/deserialize; edge-case pools + seeded random values and lexical variants",
+    ref="DESIGN.md §5 C05",
+)
+
 FIX_COMMITS = []  # guarded hook commits in /repo (none: all hooks are installed from the harness side)
 
 
